@@ -222,6 +222,11 @@ class _CacheBase(Contract):
             raise PathEnd("not a shield")
         self.awaited = aw.data["inner"]
         p = dict_parts(it, self.cached)
+        # the entries are touched by callers only (this is what the interference model of the other clauses assumes): nothing is
+        # registered to run when an invocation completes - such a callback would act on whatever entry then sits under the key
+        cbs = st.ghost.get("$done_callbacks", [])
+        st.check("C13-P3:nothing-acts-on-the-cache-when-an-invocation-completes(no-done-callbacks-on-the-invocation-task)",
+                 z3.BoolVal(not cbs), kind="frame", note="a done-callback is registered on the invocation task")
         if self.invoked:
             st.check("C13-P1:one-invocation-started-and-cached-under-the-key-before-the-first-suspension",
                      z3.And(z3.BoolVal(self.invoked == 1), z3.Select(p["has"], self.key),
